@@ -122,6 +122,16 @@ def programs(tier):
         "ref-of-tuple-vs-tuple-of-ref": (TRef(TTuple(INT32, INT32)), Call("ref", Tuple(Int(11), Int(12))), lambda t: Block([Let("g", Call("ref_get", t), ty=TTuple(INT32, INT32))], Proj(Var("g"), 1)),
                                          TTuple(TRef(INT32), INT32), Tuple(Call("ref", Int(13)), Int(14)), lambda t: Bin("+", Call("ref_get", Proj(t, 0)), Proj(t, 1))),
     }
+    # the same four leaves grouped differently: ((a, b), c, d) and ((a, b, c), d) flatten alike - under Ref / Vec / array, whose helper
+    # names are built from the element type
+    G1, G2 = TTuple(TTuple(INT32, INT32), INT32, INT32), TTuple(TTuple(INT32, INT32, INT32), INT32)
+    g1, g2 = Tuple(Tuple(Int(1), Int(2)), Int(3), Int(4)), Tuple(Tuple(Int(5), Int(6), Int(7)), Int(8))
+    pairs["tuple-grouping-inside-ref"] = (TRef(G1), Call("ref", g1), lambda t: Block([Let("g", Call("ref_get", t), ty=G1)], Proj(Var("g"), 2)),
+                                          TRef(G2), Call("ref", g2), lambda t: Block([Let("g", Call("ref_get", t), ty=G2)], Proj(Var("g"), 1)))
+    pairs["tuple-grouping-inside-array"] = (TArray(2, G1), Array(g1, g1), lambda t: Block([Let("g", Call("array_get", t, Int(1)), ty=G1)], Proj(Var("g"), 1)),
+                                            TArray(2, G2), Array(g2, g2), lambda t: Block([Let("g", Call("array_get", t, Int(0)), ty=G2)], Proj(Var("g"), 1)))
+    pairs["tuple-grouping-inside-ref-of-ref"] = (TRef(TRef(G1)), Call("ref", Call("ref", g1)), lambda t: Block([Let("g", Call("ref_get", Call("ref_get", t)), ty=G1)], Proj(Var("g"), 2)),
+                                                 TRef(TRef(G2)), Call("ref", Call("ref", g2)), lambda t: Block([Let("g", Call("ref_get", Call("ref_get", t)), ty=G2)], Proj(Var("g"), 1)))
     for aspect, (TA, va, ua, TB, vb, ub) in pairs.items():
         p = Program("c19_differ_" + aspect.replace("-", "_"))
         p.fn("fa", [("t", TA)], INT32, ua(Var("t")))
@@ -192,4 +202,37 @@ def programs(tier):
         text = head + decls_ + "fn main() -> unit {\n" + stmt + "    ()\n}\n"
         out.append({"prog": TextProgram("c19_cross_" + kind.replace("-", "_"), text, lines), "family": "c19", "ident": f"c19:same-name-in-two-packages:{kind}", "expect": "accept",
                     "extra_files": {"Lib/lib.gom": lib}})
+    # ---- a function called `main` in an imported package is an ordinary function (only the root package's `main` is the entry)
+    out.append({"prog": TextProgram("c19_library_function_main", "package Main\nimport Lib\n\nfn main() -> unit {\n    let _ = string_println(int32_to_string(Lib::main() + Lib::twice()));\n    ()\n}\n", ["123"]),
+                "family": "c19", "ident": "c19:library-function-named-main", "expect": "accept",
+                "extra_files": {"Lib/lib.gom": "package Lib\n\nfn main() -> int32 { 41 }\nfn twice() -> int32 { main() + main() }\n"}})
+    # ---- a variant spelled like its own enum, like another enum, like a struct: the variant's Go struct and the type are two things
+    # (a struct named like a variant cannot be built - `Green { .. }` is read as the constructor and refused - but it can be declared and
+    # named in signatures, which is enough for both Go types to be emitted)
+    vt = {"its-own-enum": ("enum Foo { Foo, Bar(int32) }\nfn sh(f: Foo) -> int32 { match f { Foo::Foo => 1, Foo::Bar(n) => n } }\n", "sh(Foo::Foo) + sh(Foo::Bar(5))", "6"),
+          "another-enum": ("enum Color { Red, Shade(int32) }\nenum Shade { Dark, Light }\nfn sh(c: Color) -> int32 { match c { Color::Red => 1, Color::Shade(n) => n } }\nfn sd(s: Shade) -> int32 { match s { Shade::Dark => 10, Shade::Light => 20 } }\n",
+                           "sh(Color::Shade(5)) + sd(Shade::Light) + sh(Color::Red)", "26"),
+          "a-struct": ("enum Color { Red, Green }\nstruct Green { x: int32 }\nfn gx(g: Green) -> int32 { g.x }\nfn sh(c: Color) -> int32 { match c { Color::Red => 1, Color::Green => 2 } }\n",
+                       "sh(Color::Green) + sh(Color::Red) + 40", "43"),
+          "a-struct-with-payload": ("enum Shape { Dot, Box(int32) }\nstruct Box { w: int32 }\nfn bw(b: Box) -> int32 { b.w }\nfn sh(s: Shape) -> int32 { match s { Shape::Dot => 1, Shape::Box(n) => n } }\n",
+                                    "sh(Shape::Box(2)) + sh(Shape::Dot) + 40", "43")}
+    for name, (decls_, expr, val) in vt.items():
+        text = decls_ + f"fn main() -> unit {{\n    let _ = string_println(int32_to_string({expr}));\n    ()\n}}\n"
+        out.append({"prog": TextProgram("c19_variant_named_like_" + name.replace("-", "_"), text, [val]), "family": "c19", "ident": f"c19:variant-named-like:{name}", "expect": "accept"})
+    # ---- the same names declared in two IMPORTED packages (neither is the root package): variants, enum / struct types, functions,
+    # traits with their methods and impls for one builtin type, a generic enum instantiated at each package's struct
+    def libtext(pk, tag):
+        return lib.replace("package Lib", "package " + pk).replace("lib-", tag + "-")
+    text = ("package Main\nimport LibA\nimport LibB\n\n"
+            "fn ua(o: LibA::Opt[LibA::Item]) -> int32 { match o { LibA::Opt::Som(i) => i.v, LibA::Opt::Non => 0 } }\n"
+            "fn ub(o: LibB::Opt[LibB::Item]) -> int32 { match o { LibB::Opt::Som(i) => i.v + 1000, LibB::Opt::Non => 0 } }\n"
+            "fn main() -> unit {\n"
+            "    let _ = string_println(LibA::name(LibA::pick(0)) + LibB::name(LibB::pick(0)) + LibA::name(LibA::Color::Green(2)) + LibB::name(LibB::pick(3)));\n"
+            "    let _ = string_println(int32_to_string(LibA::helper(1)) + int32_to_string(LibB::helper(2)) + LibA::lshow(LibA::mk(4)) + LibB::lshow(LibB::mk(5)));\n"
+            "    let _ = string_println(LibA::Show::show(1) + LibB::Show::show(1) + LibA::Show::show(LibA::mk(6)) + LibB::Show::show(LibB::mk(7)));\n"
+            "    let _ = string_println(int32_to_string(ua(LibA::wrap(LibA::mk(8)))) + int32_to_string(ub(LibB::wrap(LibB::mk(9)))));\n"
+            "    ()\n}\n")
+    lines = ["a-redb-reda-green 2b-green 3", "101102a-item 4b-item 5", "a-intb-inta-item 6b-item 7", "81009"]
+    out.append({"prog": TextProgram("c19_cross_two_imported", text, lines), "family": "c19", "ident": "c19:same-names-in-two-imported-packages", "expect": "accept",
+                "extra_files": {"LibA/lib.gom": libtext("LibA", "a"), "LibB/lib.gom": libtext("LibB", "b")}})
     return out
